@@ -7,7 +7,7 @@ Model side of the C06 line protocol (one answer line per op line).
 
 Writer-history stream (package gsfa):
   `case …` | `params B P C K M T R` | `sched lazy|eager|rand <seed>` | `push <slot> <off> <size> <flags> <a,b,…>`
-  | `close` | `get <addr> <limit>`
+  | `close` | `get <addr> <limit> [case tag]`
 The events are applied with `Gsfa.step`; at `close` the recorded event list goes through `Gsfa.index`
 (= `run`, `close`, `buildFrom`, `sealHeads`) with the `Std.HashMap` implementation of the three maps and the
 identity as stand-in for zstd (the theorems hold for every lawful `Z`, and nothing that is compared depends on
@@ -113,7 +113,7 @@ def stepLine (s : S) (line : String) : S × String :=
     match index Ah Rh Hh Zid s.w.p s.w.evs.toList with
     | .ok idx => ({ s with w := { s.w with idx := some idx, file := idx.file } }, "ok")
     | .error f => ({ s with w := { s.w with idx := none } }, showFail f)
-  | ["get", a, limit] =>
+  | "get" :: a :: limit :: _ =>
     match s.w.idx with
     | none => (s, "noindex")
     | some idx =>
